@@ -94,6 +94,8 @@ package cose
 
 //@ func cose.rsaSigAlg
 //@   params opts
+//@   local pssOpts = extract0:TypeAssert#1
+//@   local usingPss = extract1:TypeAssert#1
 //@   props C10(sweep)
 //@   sweep bounds,panic,make,nilmem,div
 
